@@ -28,7 +28,7 @@ def run(pid, tier, tmp, replay):
     if replay:
         first = json.loads(open(replay).readline())
         f = first['fault']
-        os.environ['VERIF_FAULT'] = '%s:%s:%d:%s' % (f['kind'], f['file'] or '-', f['k'], f['cg'] or '-')
+        os.environ['VERIF_FAULT'] = '%s:%s:%d:%s:%d' % (f['kind'], f['file'] or '-', f['k'], f['cg'] or '-', f.get('variant', 0))
     vlib.trace_family_check(pid, tier, tmp, replay, variant='asan', driver='tick_driver',
                             driver_args=[vlib.seed(), nscn, stride],
                             trace_module='Tick_Trace.tla', trace_cfg='Tick_Trace.cfg',
